@@ -347,13 +347,51 @@ class Evaluator:
         self.alloc_loops: Dict[str, Tuple[str, ...]] = {}
         self.list_defs: Dict[str, tuple] = {}  # local bound to a list display: (loop stack, live) at the binding
         self.dict_defs: Dict[str, tuple] = {}
+        self.rec_types: Dict[tuple, ClassInfo] = {}  # opaque values (loop elements, parameters) known to be NamedTuple records
 
     # ------------------------------------------------------------------ plumbing
     def fresh(self, prefix):
         self._n += 1
         return f"{prefix}{self._n}"
 
+    def _records_to_tuples(self, t):
+        """NamedTuple constructor calls inside an event term as the tuples they are (events carry no record classes)"""
+        if not isinstance(t, tuple) or not t:
+            return t
+        t = tuple(self._records_to_tuples(c) if isinstance(c, tuple) else c for c in t)
+        if isinstance(t[0], str) and t[0] == "call" and t[1][0] == "global" and t[1][2] == "class":
+            ci = self.index.class_by_qual(t[1][1])
+            if ci is not None and not ci.bases and any(b.split(".")[-1] == "NamedTuple" for b in ci.ext_bases):
+                rv = self._record_values(ci, t)
+                if rv is not None:
+                    return ("tuple", tuple(rv.values()))
+        return t
+
+    def _record_class_of_annotation(self, ann, module, element=False):
+        """the NamedTuple class an annotation names (element=True: the element class of Iterable[X] / List[X] / ...)"""
+        if ann is None:
+            return None
+        if isinstance(ann, ast.Constant) and isinstance(ann.value, str):
+            try:
+                ann = ast.parse(ann.value, mode="eval").body
+            except SyntaxError:
+                return None
+        if element:
+            if not isinstance(ann, ast.Subscript):
+                return None
+            head = ast.unparse(ann.value).split(".")[-1]
+            if head not in ("Iterable", "Iterator", "List", "list", "Sequence", "Generator", "Tuple", "tuple", "Collection"):
+                return None
+            sl = ann.slice
+            ann = sl.elts[0] if isinstance(sl, ast.Tuple) and sl.elts else sl
+        sy = self.index.resolve_expr(module, ann) if isinstance(ann, (ast.Name, ast.Attribute)) else None
+        if sy is not None and sy.kind == "class" and sy.cls is not None and not sy.cls.bases \
+                and any(b.split(".")[-1] == "NamedTuple" for b in sy.cls.ext_bases):
+            return sy.cls
+        return None
+
     def emit(self, kind, live, term, node):
+        term = self._records_to_tuples(term)
         if self._post and live != FALSE:
             # an inlined helper raised under some condition earlier in this statement: what follows runs otherwise
             live = AND(live, *self._post)
@@ -390,6 +428,10 @@ class Evaluator:
             if a.kwarg:
                 kwarg = a.kwarg.arg
                 self.env[kwarg] = ("param", "**" + kwarg)
+        for pname, ann in annotations.items():
+            ci_ = self._record_class_of_annotation(ann, self.module)
+            if ci_ is not None:
+                self.rec_types[("param", pname)] = ci_
         if isinstance(fn, ast.Lambda):
             t = self.ev(fn.body, TRUE)
             self.emit("return", TRUE, t, fn.body)
@@ -852,6 +894,10 @@ class Evaluator:
         for n in assigned:
             if n in self.env:
                 self.env[n] = ("phi", n, lid)
+        if value is None:
+            ci_ = self._element_record_class(it)
+            if ci_ is not None:
+                self.rec_types[("elem", lid)] = ci_
         self.loop_stack.append(lid)
         elem_v = value if value is not None else ("elem", lid)
         self.assign(st.target, elem_v, live, st)
@@ -1018,6 +1064,10 @@ class Evaluator:
             v = self._record_get(base, attr=n.attr)
             if v is not None:
                 return v
+        if base in self.rec_types:
+            v = self._typed_get(base, self.rec_types[base], n.attr)
+            if v is not None:
+                return v
         if base[0] == "global" and base[2] == "class":
             s = self.index._descend(_sym_from_term(self.index, base), [n.attr], 0)
             if s is not None and s.kind in ("func",):
@@ -1065,6 +1115,27 @@ class Evaluator:
             return rv.get(attr)
         vals = list(rv.values())
         return vals[index] if -len(vals) <= index < len(vals) else None
+
+    def _typed_get(self, base, ci, attr):
+        """field / property `attr` of an opaque value known to be a record of class ci: base[i] / the property's body"""
+        fields = [st.target.id for st in ci.node.body if isinstance(st, ast.AnnAssign) and isinstance(st.target, ast.Name)]
+        if attr in fields:
+            return ("sub", base, ("const", fields.index(attr)))
+        if attr in ci.methods and len(self.inline_stack) < 4:
+            node = pick_def(ci.methods[attr])
+            if any(ast.unparse(d) == "property" for d in node.decorator_list):
+                try:
+                    sub = Evaluator(self.index, ci.module, node, f"{ci.qual}.{attr}", ci)
+                    sub.inline_stack = self.inline_stack + (f"{ci.qual}.{attr}",)
+                    if node.args.args:
+                        sub.rec_types[("param", node.args.args[0].arg)] = ci
+                    ps = sub.run()
+                except (AnalysisError, RecursionError):
+                    return None
+                rets = ps.raw_returns
+                if len(rets) == 1 and not any(e.kind in ("store", "raise", "yield", "delete") for e in ps.events) and ps.params:
+                    return fold_sub(subst(rets[0].term, {("param", ps.params[0]): base}))
+        return None
 
     def _record_field(self, call, attr):
         """Point(x=a, y=b).x -> a for NamedTuple / dataclass records defined in the package (plain annotated fields)."""
@@ -1908,6 +1979,32 @@ class Evaluator:
             val = ("elem", xl)
         post = [(e, inst2, idmap, qual) for e in after] + post_all
         return yl, val, AND(*conjuncts(ylive)), post, qual
+
+    def _element_record_class(self, it):
+        """record class of the elements of an iterable term: from the return annotation of an in-package function, from
+        the element of a comprehension / list, or (a + b) when all parts agree"""
+        if it[0] == "call" and it[1][0] == "global" and it[1][2] == "func" and ":" in it[1][1]:
+            modname, fname = it[1][1].split(":")
+            try:
+                m, fn = self.index.need_func(modname, fname)
+            except AnalysisError:
+                return None
+            return self._record_class_of_annotation(fn.returns, m, element=True)
+        if it[0] == "bin" and it[1] == "+":
+            a, b = self._element_record_class(it[2]), self._element_record_class(it[3])
+            return a if a is not None and b is not None and a.qual == b.qual else None
+        elt = None
+        if it[0] == "comp" and it[1] in ("list", "gen"):
+            elt = it[2]
+        elif it[0] == "list" and it[1]:
+            elt = it[1][0]
+        if elt is not None:
+            if elt[0] == "call" and elt[1][0] == "global" and elt[1][2] == "class":
+                ci = self.index.class_by_qual(elt[1][1])
+                if ci is not None and not ci.bases and any(b.split(".")[-1] == "NamedTuple" for b in ci.ext_bases):
+                    return ci
+            return self.rec_types.get(elt)
+        return None
 
     def _for_over_helper_generator(self, st, live):
         """`for x in helper(...): body` (the call written in place or held in a local): see _splice_generator."""
